@@ -35,7 +35,7 @@ def generate(tier, seed):
                     mid = sorted(set(x for x in (rng.dyadic(nu[0], nu[-1], 12) for _ in range(4 * len(nu))) if nu[0] < x < nu[-1] and x not in nu))[:len(nu) - 2]
                     if len(mid) == len(nu) - 2:
                         twin = [nu[0]] + mid + [nu[-1]]
-                cases.append(dict(legacy=(r % 4 == 3), err_unit=(a if rng.random() < 0.5 else rng.choice(names)), twin_nu=twin, stored=a, requested=b, third=rng.choice(names), nu=nu, order=rng.choice(['incr', 'decr']),
+                cases.append(dict(columns=('reordered' if r % 3 == 1 else 'standard'), legacy=(r % 4 == 3), err_unit=(a if rng.random() < 0.5 else rng.choice(names)), twin_nu=twin, stored=a, requested=b, third=rng.choice(names), nu=nu, order=rng.choice(['incr', 'decr']),
                                   flux=[[rng.logdyadic(1e-3, 1e3, 10) for _ in nu] for _ in range(nap)], dist_kpc=rng.logdyadic(1e-3, 1e3, 8),
                                   bad=rng.choice(['K', 'm', 'Hz', 'kg']) if r == 0 else None, read_order=rng.choice(['nu', 'wav'])))
     return cases
@@ -60,6 +60,9 @@ def impl(case):
     with tempfile.TemporaryDirectory() as d:
         p = os.path.join(d, 's_sed.fits')
         s.write(p)
+        if case.get('columns') == 'reordered':
+            import pkgcase
+            pkgcase.reorder_columns(p)
         if case.get('legacy'):      # files of older packages carry no DISTANCE keyword: SED.read then assumes 1 kpc (whatever distance this harness gave)
             from astropy.io import fits
             with fits.open(p, mode='update', memmap=False) as h:
